@@ -71,7 +71,7 @@ def _sub_digests(pid, base_seed, tier, n, workers, hashseed):
     raise core.HarnessError('digest subprocess failed: %s' % (p.stdout + p.stderr)[-1500:])
 
 
-DET_N = {'quick': {'C04': 400, 'C06': 400, 'C09': 200, 'C13': 8, 'C15': 400, 'C17': 8, 'C20': 8},
+DET_N = {'quick': {'C04': 400, 'C06': 400, 'C09': 200, 'C13': 24, 'C15': 400, 'C17': 24, 'C20': 24},
          'thorough': {'C04': 20000, 'C06': 20000, 'C09': 4000, 'C13': 200, 'C15': 20000, 'C17': 200, 'C20': 200}}
 
 
